@@ -251,7 +251,7 @@ def run_case(case):
         if a.shape != b.shape:
             return False
         with np.errstate(all="ignore"):
-            return bool(np.all((np.abs(a - b) <= tol * (1 + np.abs(b))) | (a == b) | (np.isnan(a) & np.isnan(b))))
+            return bool(np.all(((np.abs(a - b) <= tol * (1 + np.abs(b))) & np.isfinite(a) & np.isfinite(b)) | (a == b) | (np.isnan(a) & np.isnan(b))))
 
     hss = sorted(goldens)
     for hs in hss[1:]:
